@@ -79,6 +79,31 @@ def h_inside(ctx):
         ctx.claim("inside[idx] <=> W<=e<=E and S<=n<=N", iff(r[idx], exp))
 
 
+def h_inside_twice(ctx):
+    "two calls on the same points with two regions: the first result is still the first region's predicate afterwards"
+    shape = tuple(ctx.cfg["shape"])
+    e, n = _coords(ctx, shape)
+    w, ee, s, nn = ctx.real("W"), ctx.real("E"), ctx.real("S"), ctx.real("N")
+    w2, ee2, s2, nn2 = ctx.real("W2"), ctx.real("E2"), ctx.real("S2"), ctx.real("N2")
+    ctx.assume(w <= ee)
+    ctx.assume(s <= nn)
+    ctx.assume(w2 <= ee2)
+    ctx.assume(s2 <= nn2)
+    _set_merge(ctx)
+    try:
+        r1 = vc.inside((e, n), (w, ee, s, nn))
+        r2 = vc.inside((e, n), (w2, ee2, s2, nn2))
+        r3 = vc.inside((e, n), (w, ee, s, nn))
+    finally:
+        npx.NP.merge_compare = False
+    for idx in np.ndindex(*shape):
+        exp1 = And(le(w, e[idx]), le(e[idx], ee), le(s, n[idx]), le(n[idx], nn))
+        exp2 = And(le(w2, e[idx]), le(e[idx], ee2), le(s2, n[idx]), le(n[idx], nn2))
+        ctx.claim("after a later call with another region the earlier result is still its own region's predicate", iff(r1[idx], exp1))
+        ctx.claim("second call: inside[idx] <=> predicate of the second region", iff(r2[idx], exp2))
+        ctx.claim("third call (first region again): same predicate, while the second result is unchanged", And(iff(r3[idx], exp1), iff(r2[idx], exp2)))
+
+
 def _fb(c):
     return c
 
@@ -374,6 +399,7 @@ def _cfg_proj(tier, seed):
 HARNESSES = [
     Harness("get_region", h_get_region, _cfg_shapes, bounds="coordinate arrays (plus an ignored extra coordinate) of shapes up to (2,2) quick / (2,3) thorough, all entries symbolic reals"),
     Harness("inside", h_inside, lambda tier, seed: _cfg_shapes(tier, seed) + [{"shape": (2, 2), "mem": "F"}], bounds="symbolic region (valid or not) and coordinate arrays up to 2x2 / 2x3", stubs=["np.greater_equal/less_equal/logical_and merged into terms instead of forking"]),
+    Harness("inside_twice", h_inside_twice, {"quick": [{"shape": (2,)}, {"shape": (1, 2)}]}, bounds="two symbolic valid regions, the same 2 symbolic points (1-D and 2-D), three calls in sequence", stubs=["np.greater_equal/less_equal/logical_and merged into terms instead of forking"]),
     Harness(
         "inside_fp64",
         h_inside_fp,
